@@ -429,26 +429,39 @@ class _RouteProto(Protocol):
     def m(self, a: int, b: float, c: str | None) -> int: ...
 
 
-_RINFO = rpc_methods(_RouteProto)["m"]
+class _RouteProtoDefaults(Protocol):
+    def m(self, a: int = 1, b: float = 2.0, c: str | None = None) -> int: ...
+
+
+class _RouteProtoNoParams(Protocol):
+    def m(self) -> int: ...
+
+
+# signature kinds: required parameters / every parameter defaulted / no parameters at all
+_RPROTOS = (_RouteProto, _RouteProtoDefaults, _RouteProtoNoParams)
+_RINFOS = tuple(rpc_methods(p)["m"] for p in _RPROTOS)
+_RINFO = _RINFOS[0]
 _RDECL = _RINFO.params_schema  # a: int64 not null, b: double not null, c: string (nullable)
 _R_ALT = (pa.int32(), pa.int64(), pa.large_string())  # a "different Arrow type" per column (incl. castable ones)
 _R_VAL = ((1, 1), (2.5, 2), ("s", "s"))  # value under (declared, alternative) type
 _ROUTE_INLINE, _ROUTE_SHM_STATIC, _ROUTE_SHM_ATTACH, _ROUTE_EXTERNAL = 0, 1, 2, 3
-_FS_SAME, _FS_EXTRA, _FS_MISSING, _FS_RENAMED = 0, 1, 2, 3
+_FS_SAME, _FS_EXTRA, _FS_MISSING, _FS_RENAMED, _FS_EMPTY = 0, 1, 2, 3, 4  # _FS_EMPTY: every column dropped
 _PERMS = ((0, 1, 2), (0, 2, 1), (1, 0, 2), (1, 2, 0), (2, 0, 1), (2, 1, 0))
 _R: dict = {"inner": None, "released": 0, "closed": 0}
 _LOCATION_KEY = _md.LOCATION_KEY
 
 
-def _route_inner(perm: int, retype: int, nullflip: int, fieldset: int) -> pa.RecordBatch:
+def _route_inner(perm: int, retype: int, nullflip: int, fieldset: int, decl: pa.Schema = None) -> pa.RecordBatch:
     """The real single-row request batch: declared columns, perturbed.
 
     retype / nullflip: index of the one column that is retyped / nullability-flipped (3 = none)."""
+    if decl is None:
+        decl = _RDECL
     fields, arrays = [], []
-    for pos in _PERMS[perm]:
+    for pos in _PERMS[perm] if (len(decl) == 3 and fieldset != _FS_EMPTY) else ():
         if fieldset == _FS_MISSING and pos == 2:
             continue
-        d = _RDECL.field(pos)
+        d = decl.field(pos)
         typ = _R_ALT[pos] if retype == pos else d.type
         name = "renamed" if (fieldset == _FS_RENAMED and pos == 0) else d.name
         fields.append(pa.field(name, typ, nullable=(not d.nullable) if nullflip == pos else d.nullable))
@@ -459,13 +472,15 @@ def _route_inner(perm: int, retype: int, nullflip: int, fieldset: int) -> pa.Rec
     return pa.RecordBatch.from_arrays(arrays, schema=pa.schema(fields))
 
 
-def _route_request(route: int, inner: pa.RecordBatch) -> bytes:
+def _route_request(route: int, inner: pa.RecordBatch, decl: pa.Schema = None) -> bytes:
+    if decl is None:
+        decl = _RDECL
     kv = {_md.RPC_METHOD_KEY: b"m", _md.REQUEST_VERSION_KEY: _md.REQUEST_VERSION}
     if route == _ROUTE_INLINE:
         wire_batch = inner
     else:
         # 0-row pointer batch advertising the declared schema; the real batch lives elsewhere
-        wire_batch = pa.RecordBatch.from_arrays([pa.nulls(0, type=f.type) for f in _RDECL], schema=_RDECL)
+        wire_batch = pa.RecordBatch.from_arrays([pa.nulls(0, type=f.type) for f in decl], schema=decl)
         if route == _ROUTE_EXTERNAL:
             kv[_LOCATION_KEY] = b"https://storage.example/obj"
         else:
@@ -510,22 +525,27 @@ _ROUTE_STUBS = [
 ]
 
 
-def _route_conforms(inner: pa.RecordBatch) -> bool:
-    """Reference, from the property statement: names, order, Arrow types and nullability equal the declared ones."""
-    if len(inner.schema) != len(_RDECL):
+def _route_conforms(inner: pa.RecordBatch, decl: pa.Schema = None) -> bool:
+    """Reference, from the property statement: names, order, Arrow types and nullability equal the declared ones
+    (omitted defaulted parameters are filled in by the *client*, so dropping a column never conforms)."""
+    if decl is None:
+        decl = _RDECL
+    if len(inner.schema) != len(decl):
         return False
-    for i in range(len(_RDECL)):
-        f, d = inner.schema.field(i), _RDECL.field(i)
+    for i in range(len(decl)):
+        f, d = inner.schema.field(i), decl.field(i)
         if f.name != d.name or f.type != d.type or f.nullable != d.nullable:
             return False
     return True
 
 
-def _route_run(seq: tuple, route: int, inner: pa.RecordBatch):  # type: ignore[no-untyped-def]
+def _route_run(seq: tuple, route: int, inner: pa.RecordBatch, info=None):  # type: ignore[no-untyped-def]
+    if info is None:
+        info = _RINFO
     _R["inner"] = inner
     _R["released"] = 0
     _R["closed"] = 0
-    stream = BytesIO(_route_request(route, inner))
+    stream = BytesIO(_route_request(route, inner, info.params_schema))
     tok = _current_request_param_schema.set(None)
     invoked = False
     exc = None
@@ -540,11 +560,11 @@ def _route_run(seq: tuple, route: int, inner: pa.RecordBatch):  # type: ignore[n
             )
             for step in seq:
                 if step == "_deserialize_params":
-                    wire._deserialize_params(kwargs, _RINFO.param_types, IpcValidation.FULL)
+                    wire._deserialize_params(kwargs, info.param_types, IpcValidation.FULL)
                 elif step == "_validate_call_signature":
-                    wire._validate_call_signature("m", kwargs, _RINFO.param_types, _RINFO.param_defaults, _RINFO.params_schema)
+                    wire._validate_call_signature("m", kwargs, info.param_types, info.param_defaults, info.params_schema)
                 else:
-                    wire._validate_params("m", kwargs, _RINFO.param_types)
+                    wire._validate_params("m", kwargs, info.param_types)
             invoked = True  # the implementation would be called here
         except Exception as e:  # noqa: BLE001
             exc = e
@@ -556,19 +576,21 @@ def _route_run(seq: tuple, route: int, inner: pa.RecordBatch):  # type: ignore[n
 _MIN_UNPERTURBED = pick(2, 0)  # quick: reordering plus at most one of {retype, nullability flip, field-set change}; thorough: all combinations
 
 
-@cond(q=60, t=240, encoded=[wire._read_request] + ENCODED, stubs=_ROUTE_STUBS, replay=lambda a: _replay_route(a), signature=lambda a, c: "C06:delivery-route:validated-schema-is-not-the-kwargs-schema",
-      bound="declared m(a: int, b: float, c: str | None); delivery route inline / shm (static segment) / shm (attached segment) / external location x real batch = 6 column orders x one-or-no column retyped x one-or-no column nullability-flipped x field set same / extra / missing / renamed (quick: at most one of the three perturbations besides reordering = 240 requests; thorough: all 1536)")
-def validated_columns_are_the_delivered_columns(route: int, perm: int, retype: int, nullflip: int, fieldset: int) -> bool:
+@cond(q=100, t=300, encoded=[wire._read_request] + ENCODED, stubs=_ROUTE_STUBS, replay=lambda a: _replay_route(a), signature=lambda a, c: "C06:delivery-route:validated-schema-is-not-the-kwargs-schema",
+      bound="declared m(a: int, b: float, c: str | None) with no defaults / with every parameter defaulted / a parameterless m(); delivery route inline / shm (static segment) / shm (attached segment) / external location x real batch = 6 column orders x one-or-no column retyped x one-or-no column nullability-flipped x field set same / extra / one column missing / renamed / EVERY column dropped (quick: at most one of the three perturbations besides reordering; thorough: all combinations)")
+def validated_columns_are_the_delivered_columns(sig: int, route: int, perm: int, retype: int, nullflip: int, fieldset: int) -> bool:
     """
-    pre: 0 <= route <= 3 and 0 <= perm <= 5 and 0 <= retype <= 3 and 0 <= nullflip <= 3 and 0 <= fieldset <= 3
+    pre: 0 <= sig <= 2 and 0 <= route <= 3 and 0 <= perm <= 5 and 0 <= retype <= 3 and 0 <= nullflip <= 3 and 0 <= fieldset <= 4
     pre: (retype == 3) + (nullflip == 3) + (fieldset == 0) >= _MIN_UNPERTURBED
+    pre: sig != 2 or (perm == 0 and retype == 3 and nullflip == 3 and fieldset <= 1)
     post: _
     """
     r = _concrete(route, 4)
-    inner = _route_inner(_concrete(perm, 6), _concrete(retype, 4), _concrete(nullflip, 4), _concrete(fieldset, 4))
-    want = _route_conforms(inner)
+    info = _RINFOS[_concrete(sig, 3)]
+    inner = _route_inner(_concrete(perm, 6), _concrete(retype, 4), _concrete(nullflip, 4), _concrete(fieldset, 5), info.params_schema)
+    want = _route_conforms(inner, info.params_schema)
     for seq in _SEQUENCES:
-        invoked, exc = _route_run(seq, r, inner)
+        invoked, exc = _route_run(seq, r, inner, info)
         if invoked != want:
             return False
         if not invoked and not isinstance(exc, (TypeError, KeyError, ValueError)):
@@ -587,8 +609,10 @@ def _replay_route(args: dict) -> str | None:
     from vgi_rpc.rpc._common import RpcError
     from vgi_rpc.shm import ShmSegment, make_shm_pointer_batch
 
-    inner = _route_inner(args["perm"], args["retype"], args["nullflip"], args["fieldset"])
-    want = _route_conforms(inner)
+    sig = args.get("sig", 0)
+    decl = _RINFOS[sig].params_schema
+    inner = _route_inner(args["perm"], args["retype"], args["nullflip"], args["fieldset"], decl)
+    want = _route_conforms(inner, decl)
     calls: list = []
 
     class Impl:
@@ -596,7 +620,17 @@ def _replay_route(args: dict) -> str | None:
             calls.append((a, b, c))
             return 1
 
-    server = srv.RpcServer(_RouteProto, Impl(), server_id="srv")
+    class ImplDefaults:
+        def m(self, a: int = 1, b: float = 2.0, c: str | None = None) -> int:
+            calls.append((a, b, c))
+            return 1
+
+    class ImplNoParams:
+        def m(self) -> int:
+            calls.append(())
+            return 1
+
+    server = srv.RpcServer(_RPROTOS[sig], (Impl, ImplDefaults, ImplNoParams)[sig](), server_id="srv")
     kv = {_md.RPC_METHOD_KEY: b"m", _md.REQUEST_VERSION_KEY: _md.REQUEST_VERSION}
     seg = None
     try:
@@ -606,7 +640,7 @@ def _replay_route(args: dict) -> str | None:
             # (an external-location request needs a live object store; the shm side channel exercises the same code path)
             seg = ShmSegment.create(1 << 20)
             offset, length = seg.allocate_and_write(inner)
-            wire_batch, pmd = make_shm_pointer_batch(_RDECL, offset, length)
+            wire_batch, pmd = make_shm_pointer_batch(decl, offset, length)
             kv.update(dict(pmd.items()))
             kv[_md.SHM_SEGMENT_NAME_KEY] = seg.name.encode()
             kv[_md.SHM_SEGMENT_SIZE_KEY] = str(seg.size).encode()
@@ -633,7 +667,7 @@ def _replay_route(args: dict) -> str | None:
     invoked = len(calls) == 1
     if invoked != want or (not invoked and not got_error):
         return "declared %s; real request batch %s delivered %s: method %s%s" % (
-            str(_RDECL).replace("\n", ", "), str(inner.schema).replace("\n", ", "),
+            str(decl).replace("\n", ", ") or "(no parameters)", str(inner.schema).replace("\n", ", ") or "(no columns)",
             "inline" if args["route"] == _ROUTE_INLINE else "through the shared-memory side channel",
             "invoked with %r" % (calls[0],) if invoked else "not invoked", "" if invoked == want else " but the request %s the contract" % ("conforms to" if want else "violates"))
     return None
